@@ -17,7 +17,8 @@ from harness.runner import Phase, Verdict
 
 ID = "C09"
 LEVEL = "fault_enumeration"
-TECHNIQUE = ("per generated base game (Hypothesis), exhaustive enumeration of single-rule faults at every position; "
+TECHNIQUE = ("per generated base game (Hypothesis), exhaustive enumeration of single-rule faults at every position; stacked "
+             "faults and coverage-guided fuzzing (atheris/libFuzzer) against an independent statement of the rules; "
              "invariant oracle: ValueError and no result, batch runner records a message")
 LEVEL_TEXT = ("Fault enumeration: for each generated well-formed base game (2-7 states, any owners/topology), all eleven "
               "documented well-formedness rules are broken one at a time at every state, transition and tuple slot, with "
@@ -133,41 +134,7 @@ def bases(draw):
     return dict(game=draw(games.any_games(min_states=2, max_states=7, max_actions=3)))
 
 
-def reference_valid(g):
-    """Independent statement of the documented well-formedness rules (R1-R11) on a description whose
-    four fields are lists.  Returns None if well-formed, else the first broken rule."""
-    players, rewards, tl, finals = g["players"], g["rewards"], g["transition_list"], g["final_states"]
-    n = len(players)
-    if len(tl) != n or len(rewards) != n:
-        return "R1"
-    if any(r < 0 for r in rewards):
-        return "R2"
-    if any(p not in (P1, P2, PR) for p in players):
-        return "R3"
-    if not finals:
-        return "R11"
-    if any(f < 0 or f >= n for f in finals):
-        return "R4"
-    for s in range(n):
-        lst = tl[s]
-        if not isinstance(lst, list):
-            return "R6" if not lst else "R7"
-        if not lst:
-            return "R6"
-        for e in lst:
-            if not isinstance(e, tuple) or len(e) != 2:
-                return "R7"
-            lab, t = e
-            if players[s] == PR:
-                if isinstance(lab, bool) or not isinstance(lab, (int, float)):
-                    return "R9"
-            elif not isinstance(lab, str):
-                return "R8"
-            if isinstance(t, bool) or not isinstance(t, int):
-                return "R10"
-            if t < 0 or t >= n:
-                return "R5"
-    return None
+from harness.refvalid import reference_valid  # noqa: E402
 
 
 @st.composite
@@ -342,3 +309,21 @@ def check_case(case):
     v.cls(*sorted(rules))
     v.cls(f"base_states={n}")
     return v
+
+
+def fuzz_stage(tier, seed):
+    """Coverage-guided stage: atheris target fuzz/fuzz_validate.py (oracle = harness/refvalid.py, both
+    directions).  Two campaigns: empty corpus, and a corpus seeded with two small valid inputs."""
+    from harness import fuzzstage
+    runs = 40000 if tier == "quick" else 1500000
+    info = dict(engine="atheris (libFuzzer), target fuzz/fuzz_validate.py", campaigns=[])
+    cases = []
+    for name, seeds in (("empty-corpus", ()), ("seeded-corpus", (bytes([3, 50, 50, 9, 50, 1, 50, 2, 50, 50]) * 6,
+                                                                  bytes(range(40, 120))))):
+        c = fuzzstage.campaign("fuzz_validate.py", runs, seed, seeds=seeds)
+        info["campaigns"].append(dict(corpus=name, executions=c["executions"], outcome_classes=c["stats"],
+                                      crashes=len(c["crashes"]), skipped=c.get("skipped"), note=c.get("note"),
+                                      final_corpus_size=c.get("corpus_size")))
+        for g in c["crashes"]:
+            cases.append(dict(multi=g, applied=[["fuzz", "atheris " + name, ""]]))
+    return info, cases
